@@ -531,3 +531,9 @@ MUTANTS += [
  {"id": "reg-generic-without-spin", "prop": "C08", "file": _IX, "old": "            spins = tuple(spin for _ in range(n))\n            ret.update(self.get_indices(idx, spins))", "new": "            ret.update(self.get_indices(idx))"},
  {"id": "reg-generic-takes-from-the-end", "prop": "C08", "file": _IX, "old": "            idx = self._generic_indices[space][spin][:n]\n", "new": "            idx = self._generic_indices[space][spin][:n - 1]\n"},
 ]
+MUTANTS += [
+ {"id": "c08-lowest-required-ignores-used", "prop": "C08", "file": _IX, "old": "    required = len(used) + n  # the number of indices present in the term", "new": "    required = n  # the number of indices present in the term"},
+ {"id": "c08-lowest-suffix-starts-at-two", "prop": "C08", "file": _IX, "old": "    required = len(used) + n  # the number of indices present in the term\n    suffix = 1", "new": "    required = len(used) + n  # the number of indices present in the term\n    suffix = 2"},
+ {"id": "c08-lowest-one-too-many", "prop": "C08", "file": _IX, "old": "    return [s for s in idx if s not in used][:n]", "new": "    return [s for s in idx if s not in used][:n + 1]"},
+ {"id": "c08-lowest-reversed-letters", "prop": "C08", "file": _IX, "old": "        idx.extend(s + str(suffix) for s in base)\n        suffix += 1", "new": "        idx.extend(s + str(suffix) for s in reversed(base))\n        suffix += 1"},
+]
